@@ -79,6 +79,10 @@ class AbstractExcelInPython(ABC):
 
         def __ne__(self, other: Any) -> bool:
             return not self.__eq__(other)
+
+        def __str__(self) -> str:
+            # the text form of a blank is the empty text (blank & "x" is "x")
+            return ''
     
     
     def _by_operator(self, operator: str, left_operand: str | int | float | datetime.datetime, right_operand: str | int | float | datetime.datetime) -> bool:
